@@ -351,7 +351,7 @@ def faults_for_site(site, level='full', trunc_step=1):
                 if mode == 'zero' and true == 0:
                     continue        # not a deviation
                 out.append(('len', idx, mode))
-        for t in (0, 1, 2, 21, 255):
+        for t in (0, 1, 2, 3, 21, 255):      # 3 = SSH_MSG_UNIMPLEMENTED, what a peer answers to a message it does not know
             out.append(('type', t))
         for d in (1, 2, 3):
             out.append(('debug', d))
